@@ -50,8 +50,61 @@ class notrace:
         return False
 
 
+_ALARM = {"installed": False, "mod": None}
+PATH_LIMIT_S = 25
+
+
+def _on_alarm(signum, frame):
+    """the current path has been running for PATH_LIMIT_S seconds of wall time inside the code under test"""
+    mod = _ALARM["mod"]
+    if mod is not None and getattr(mod, "OPEN", None) is not None:
+        lst = getattr(mod, "OPEN_LIST", None)
+        if lst is None:
+            lst = mod.OPEN_LIST = []
+        if len(lst) < 8:
+            lst.append(mod.OPEN)
+        mod.OPEN = None
+    from crosshair.util import IgnoreAttempt
+    raise IgnoreAttempt("path abandoned by the harness watchdog (possible hang); inputs kept for native replay")
+
+
+def _arm(mod):
+    import signal
+    import threading
+    if "crosshair" not in sys.modules or threading.current_thread() is not threading.main_thread():
+        return
+    if not _ALARM["installed"]:
+        signal.signal(signal.SIGALRM, _on_alarm)
+        _ALARM["installed"] = True
+    _ALARM["mod"] = mod
+    signal.alarm(PATH_LIMIT_S)
+
+
+def _disarm():
+    if _ALARM["installed"]:
+        import signal
+        signal.alarm(0)
+
+
+def begin(mod_name: str, **inputs) -> None:
+    """Mark the start of a path whose inputs are already concrete (pinned): if the path never reaches fin() - the code
+    under test hangs and CrossHair abandons the path on its time limit - the inputs are kept for a native replay."""
+    mod = sys.modules[mod_name]
+    if getattr(mod, "OPEN", None) is not None:
+        lst = getattr(mod, "OPEN_LIST", None)
+        if lst is None:
+            lst = mod.OPEN_LIST = []
+        if len(lst) < 8:
+            lst.append(mod.OPEN)
+    mod.OPEN = {k: _plain(v) for k, v in inputs.items()}   # callers pass values that are already concrete Python objects
+    if tracing():
+        _arm(mod)
+
+
 def fin(mod_name: str, ok, **inputs) -> bool:
     """Finish a harness path: on failure record the concrete inputs as counterexample."""
+    _disarm()
+    sys.modules[mod_name].OPEN = None
     if ok:  # forks on a symbolic bool: true branch = property holds on this path
         return True
     mod = sys.modules[mod_name]
